@@ -17,7 +17,7 @@ CHECKS = {
  'C18': dict(
   technique='property-based testing (Hypothesis) with a simulated MPI communicator (threads + barrier, pickling collectives) against a two-pass weighted mean/variance reference and a single-rank differential',
   text='Generated sample sets, weight distributions and ARBITRARY sample-to-rank assignments (empty and single-sample ranks by construction) are pushed through OnlineVariance on 1-8 simulated ranks; every rank must return the two-pass weighted variance and agree with the single-process run; exploration level.',
-  note='mpi4py replaced by a double implementing its documented object-collective semantics; real MPI not available. Whole-pipeline clauses (generate_profiles / compute_derived_trace under ranks) are added in part (b).'),
+  note='mpi4py replaced by a double implementing its documented object-collective semantics (real MPI not available); part (b) runs Optimizer.generate_profiles / compute_derived_trace on N simulated ranks with one model+optimizer instance per rank against the single-process run; standard deviations compared as variances with an absolute rounding floor.'),
  'C01': dict(
   technique='property-based testing (Hypothesis) of synthetic atmospheres against an explicit-loop reference of the transit-depth integral (independent chord geometry, P/kT density, table x mixing-ratio opacities, modelled saturation cut-off) plus metamorphic bounds and opacity-scaling relation',
   text='Generated worlds (planet, star, 2-40 layers, pressure range, temperature profile, 1-3 molecules with tables of every magnitude class, optional CIA/Rayleigh/clouds, both path-length methods) are run through TransmissionModel.model() and compared with a from-first-principles reference of chords, optical depth, transmittance and depth, plus depth bounds, bare-planet equality and monotonicity under opacity scaling; exploration level.',
